@@ -195,7 +195,10 @@ def events(t, rnd):
         s10 = rnd.choice([0, 1000, 500, rnd.randrange(1001), rnd.randrange(1001)])
         l10 = rnd.choice([0, 1000, 500, rnd.randrange(1001), rnd.randrange(1001)])
         hh = str(h) if n % 7 else (f"+{h}" if h >= 0 else str(h))
-        txt = fn_variant("hsl", [hh, tenths(s10) + "%", tenths(l10) + "%"], n)
+        # CSS numbers may carry a sign: +50%, +100%, -0% are the percentages 50, 100 and 0
+        ss = ("+" if n % 9 == 4 else "-" if (s10 == 0 and n % 2) else "") + tenths(s10) + "%"
+        ls = ("+" if n % 13 == 6 else "-" if (l10 == 0 and n % 2) else "") + tenths(l10) + "%"
+        txt = fn_variant("hsl", [hh, ss, ls], n)
         evs.append({"k": "hsl", "h": h, "s": s10, "l": l10, "obs": both(txt, n), "txt": txt})
         n += 1
     # ---- translucent forms over white (default) and over explicit opaque backgrounds
